@@ -90,6 +90,15 @@ def last_outcome(evs, label, before):
     return out
 
 
+def no_blocked_sender(evs, before, sec=None):
+    """evidence, at event index `before`, that no sender is blocked: next_send() answered None, or the buffer was found
+    empty on a channel with capacity > 0 (senders park only behind a FULL buffer and every dequeue promotes one: invariant
+    I2, shown inductive by rule I0)"""
+    if last_outcome(evs, 'next_send', before) == 'None':
+        return True
+    return last_outcome(evs, 'cap0', before) == 'F' and last_outcome(evs, 'pop', before) == 'None'
+
+
 @rule('R2', ['C02', 'C19', 'C18'], 'buffer before blocked senders')
 def r2(ctx):
     for b, p, evs in recv_paths(ctx):
@@ -172,7 +181,7 @@ def r5(ctx):
                 ctx.oblige(1, sample='%s: sc0 only after pop:None and next_send:None' % b.key)
                 ctx.instance('%s sc0 test' % b.key)
                 lb = labels(evs, upto=e.idx, sec=e.sec)
-                if not (last_outcome(evs, 'pop', e.idx) == 'None' and last_outcome(evs, 'next_send', e.idx) == 'None'):
+                if not (last_outcome(evs, 'pop', e.idx) == 'None' and no_blocked_sender(evs, e.idx)):
                     ctx.violate(b.key, p, 'send_count tested before the buffer and the blocked senders were found empty', at=e.at)
                 rd = [x for x in evs if x.name == 'RD' and x.data['field'] == 'send_count' and x.idx < e.idx]
                 if not rd or rd[-1].sec is None:
@@ -323,7 +332,7 @@ def r7(ctx):
             if sigr or any(x.name == 'BR' and x.data['label'] == 'pop' and x.data['outcome'] == 'Some' for x in evs):
                 ctx.violate(b.key, p, 'Ok(None) returned although a value was taken')
             lb = labels(evs)
-            if not (has(lb, 'trylocked', 'None') or (has(lb, 'pop', 'None') and has(lb, 'next_send', 'None') and has(lb, 'sc0', 'F'))):
+            if not (has(lb, 'trylocked', 'None') or (has(lb, 'pop', 'None') and no_blocked_sender(evs, 10 ** 9) and has(lb, 'sc0', 'F'))):
                 ctx.violate(b.key, p, 'Ok(None) without (buffer empty, no blocked sender, senders alive) or a failed try-lock')
         if rk == 'pending':
             if not any(x.name == 'PUSH_RECV' for x in evs):
